@@ -35,8 +35,8 @@ class MapOracle:
                 return "Get failed"
             if rec["found"] != (k in self.m):
                 return "Get found=%s, map says %s" % (rec["found"], k in self.m)
-            if rec["found"] and bytes.fromhex(rec["out"]) != self.m[k]:
-                return "Get returned %s, map holds %s" % (rec["out"], self.m[k].hex())
+            if rec["found"] and bytes.fromhex(rec.get("out") or "") != self.m[k]:
+                return "Get returned %s, map holds %s" % (rec.get("out"), self.m[k].hex())
             return None
         if op == "has":
             if rec["res"] != "ROk":
